@@ -28,6 +28,8 @@ type inliner struct {
 	pos   token.Pos
 	end   token.Pos
 	ok    bool
+	// moveLits: while an argument of the call is being placed, a function literal is taken as it is
+	moveLits bool
 }
 
 func (in *inliner) expr(e ast.Expr) ast.Expr {
@@ -41,7 +43,9 @@ func (in *inliner) expr(e ast.Expr) ast.Expr {
 			if rep, ok := in.subst[o]; ok {
 				saved := in.subst
 				in.subst = nil // the caller's expression is copied as it is
+				in.moveLits = true
 				out = in.expr(rep)
+				in.moveLits = false
 				in.subst = saved
 				return out
 			}
@@ -107,6 +111,9 @@ func (in *inliner) expr(e ast.Expr) ast.Expr {
 	case *ast.ChanType:
 		out = &ast.ChanType{Begin: in.pos, Arrow: x.Arrow, Dir: x.Dir, Value: in.expr(x.Value)}
 	default:
+		if _, isLit := e.(*ast.FuncLit); isLit && in.subst == nil && in.moveLits {
+			return e // an argument that the helper mentions once: the literal moves to that place
+		}
 		in.ok = false // function literals, interface and struct types, ...
 		return e
 	}
@@ -192,9 +199,6 @@ func inlineEmbeddedHelpers(c *Ctx) int {
 				}
 			}
 		}
-		if len(parts) == 0 {
-			continue
-		}
 		// the helpers
 		type helper struct {
 			fd       *ast.FuncDecl
@@ -235,8 +239,38 @@ func inlineEmbeddedHelpers(c *Ctx) int {
 					continue
 				}
 				rn := recvNamed(fn)
-				if rn == nil || !parts[rn.Origin().Obj()] {
+				if rn == nil {
 					continue
+				}
+				if !parts[rn.Origin().Obj()] {
+					// on any type: a private getter (`return v.f` or `return &v.f`) or setter (`v.f = x`)
+					// - the style of a programmer who keeps every field behind an accessor
+					recvO := info.Defs[fd.Recv.List[0].Names[0]]
+					isField := func(e ast.Expr) bool {
+						se, ok := ast.Unparen(e).(*ast.SelectorExpr)
+						return ok && selectorField(info, se) != nil && identObj(info, se.X) == recvO && recvO != nil
+					}
+					accessor := false
+					if len(fd.Body.List) == 1 {
+						switch st := fd.Body.List[0].(type) {
+						case *ast.ReturnStmt:
+							if len(st.Results) == 1 && len(paramObjs(info, fd)) == 0 {
+								r0 := ast.Unparen(st.Results[0])
+								if u, ok := r0.(*ast.UnaryExpr); ok && u.Op == token.AND {
+									r0 = u.X
+								}
+								accessor = isField(r0)
+							}
+						case *ast.AssignStmt:
+							if st.Tok == token.ASSIGN && len(st.Lhs) == 1 && len(st.Rhs) == 1 && isField(st.Lhs[0]) {
+								ps := paramObjs(info, fd)
+								accessor = len(ps) == 1 && identObj(info, st.Rhs[0]) == types.Object(ps[0])
+							}
+						}
+					}
+					if !accessor {
+						continue
+					}
 				}
 				if fn.Type().(*types.Signature).Variadic() || len(fd.Body.List) == 0 || len(fd.Body.List) > 3 {
 					continue
@@ -300,6 +334,22 @@ func inlineEmbeddedHelpers(c *Ctx) int {
 			for i, a := range call.Args {
 				if !simpleOperand(info, a) && mentions(h, h.params[i]) != 1 {
 					return nil, nil
+				}
+				// a function literal moves into a setter (`v.f = p`), not into a helper that calls
+				// it: the rules follow such helpers as they stand
+				if _, isLit := ast.Unparen(a).(*ast.FuncLit); isLit {
+					called := false
+					ast.Inspect(h.fd.Body, func(x ast.Node) bool {
+						if ce, ok := x.(*ast.CallExpr); ok {
+							if id, ok := ast.Unparen(ce.Fun).(*ast.Ident); ok && info.Uses[id] == h.params[i] {
+								called = true
+							}
+						}
+						return !called
+					})
+					if called {
+						return nil, nil
+					}
 				}
 				in.subst[h.params[i]] = a
 			}
@@ -407,7 +457,13 @@ func inlineEmbeddedHelpers(c *Ctx) int {
 							if h == nil || !h.isResult || resultOf(h.fd) == nil {
 								return true
 							}
-							cp := in.expr(resultOf(h.fd))
+							res := resultOf(h.fd)
+							if u, isAddr := ast.Unparen(res).(*ast.UnaryExpr); isAddr && u.Op == token.AND {
+								if ps, isSel := cur.Parent().(*ast.SelectorExpr); isSel && ps.X == ast.Expr(x) {
+									res = u.X // getMutex().Lock(): the selection takes the address itself
+								}
+							}
+							cp := in.expr(res)
 							if !in.ok {
 								return true
 							}
@@ -416,7 +472,12 @@ func inlineEmbeddedHelpers(c *Ctx) int {
 									info.Types[cp] = tv
 								}
 							}
-							cur.Replace(&ast.ParenExpr{Lparen: x.Pos(), X: cp, Rparen: x.End() - 1})
+							switch cp.(type) {
+							case *ast.SelectorExpr, *ast.Ident, *ast.CallExpr, *ast.IndexExpr:
+								cur.Replace(cp) // a primary expression needs no parentheses
+							default:
+								cur.Replace(&ast.ParenExpr{Lparen: x.Pos(), X: cp, Rparen: x.End() - 1})
+							}
 							info.Types[cur.Node().(ast.Expr)] = info.Types[cp]
 							n++
 							return false
@@ -511,6 +572,10 @@ func inlineFieldCopies(c *Ctx) int {
 					fld *types.Var
 				}
 				var cands []cand
+				assignedOnce := map[types.Object]int{}
+				defining := map[*ast.Ident]bool{}
+				ownAddr := map[*ast.UnaryExpr]bool{}
+				isAddrCopy := map[types.Object]bool{}
 				ast.Inspect(fd.Body, func(x ast.Node) bool {
 					if _, isLit := x.(*ast.FuncLit); isLit {
 						return false
@@ -519,8 +584,20 @@ func inlineFieldCopies(c *Ctx) int {
 					if !ok || len(lhs) != 1 {
 						return true
 					}
+					plainAssign := false
 					if as, isAs := x.(*ast.AssignStmt); isAs && as.Tok != token.DEFINE {
-						return true
+						if as.Tok != token.ASSIGN {
+							return true
+						}
+						plainAssign = true // the one assignment of a local whose zero declaration was dropped
+					}
+					addr := false
+					if u, isAddr := ast.Unparen(rhs).(*ast.UnaryExpr); isAddr && u.Op == token.AND {
+						// a pointer to a lock of the receiver: m = &v.mutex_; m.Lock()
+						if fl := selectorField(info, u.X); fl != nil && isSyncType(fl.Type()) {
+							rhs, addr = u.X, true
+							ownAddr[u] = true
+						}
 					}
 					se, ok := ast.Unparen(rhs).(*ast.SelectorExpr)
 					if !ok {
@@ -529,10 +606,29 @@ func inlineFieldCopies(c *Ctx) int {
 					fld := selectorField(info, se)
 					base := identObj(info, se.X)
 					id, isId := lhs[0].(*ast.Ident)
-					if fld == nil || base == nil || !params[base] || !isId || info.Defs[id] == nil {
+					if fld == nil || base == nil || !params[base] || !isId {
 						return true
 					}
-					cands = append(cands, cand{info.Defs[id], se, fld})
+					obj := info.Defs[id]
+					if plainAssign {
+						obj = info.Uses[id]
+						if v, isVar := obj.(*types.Var); !isVar || v.IsField() || v.Pkg() == nil || v.Parent() == v.Pkg().Scope() || params[obj] {
+							return true
+						}
+						// a named result is read by every return of the function
+						if fd.Type.Results != nil && obj.Pos() >= fd.Type.Results.Pos() && obj.Pos() < fd.Type.Results.End() {
+							return true
+						}
+						defining[id] = true
+						assignedOnce[obj]++
+					}
+					if obj == nil {
+						return true
+					}
+					if addr {
+						isAddrCopy[obj] = true
+					}
+					cands = append(cands, cand{obj, se, fld})
 					return true
 				})
 				if len(cands) == 0 {
@@ -541,6 +637,7 @@ func inlineFieldCopies(c *Ctx) int {
 				// disqualify: the local is assigned again or has its address taken; the field (or the
 				// parameter it is selected from) is written in the function
 				bad := map[types.Object]bool{}
+				writes := map[types.Object]int{}
 				fieldWritten := map[*types.Var]bool{}
 				ast.Inspect(fd.Body, func(x ast.Node) bool {
 					mark := func(e ast.Expr) {
@@ -555,13 +652,20 @@ func inlineFieldCopies(c *Ctx) int {
 					case *ast.AssignStmt:
 						if s.Tok != token.DEFINE {
 							for _, l := range s.Lhs {
+								if o := identObj(info, l); o != nil && assignedOnce[o] > 0 {
+									writes[o]++
+									if fl := selectorField(info, l); fl != nil {
+										fieldWritten[fl] = true
+									}
+									continue
+								}
 								mark(l)
 							}
 						}
 					case *ast.IncDecStmt:
 						mark(s.X)
 					case *ast.UnaryExpr:
-						if s.Op == token.AND {
+						if s.Op == token.AND && !ownAddr[s] {
 							mark(s.X)
 						}
 					case *ast.RangeStmt:
@@ -589,15 +693,55 @@ func inlineFieldCopies(c *Ctx) int {
 					return true
 				})
 				repl := map[types.Object]*ast.SelectorExpr{}
+				// a local every assignment of which takes the same field
+				sameField := map[types.Object]bool{}
+				{
+					texts := map[types.Object]map[string]int{}
+					for _, cd := range cands {
+						if texts[cd.obj] == nil {
+							texts[cd.obj] = map[string]int{}
+						}
+						texts[cd.obj][exprStr(cd.sel)]++
+					}
+					for o, t := range texts {
+						if len(t) == 1 && writes[o] > 1 && (!declaredWithValue(info, fd, o) || usesFollowAssignments(info, fd, o)) {
+							for _, n := range t {
+								if n == writes[o] {
+									sameField[o] = true
+								}
+							}
+						}
+					}
+				}
 				for _, cd := range cands {
-					if bad[cd.obj] || fieldWritten[cd.fld] || (mutable[cd.fld] && locks) || bad[identObj(info, cd.sel.X)] {
+					if !sameField[cd.obj] && (writes[cd.obj] > 1 || declaredWithValue(info, fd, cd.obj) && writes[cd.obj] > 0) {
+						continue // more than the one assignment that defines it
+					}
+					if bad[cd.obj] || fieldWritten[cd.fld] || (mutable[cd.fld] && locks && !isAddrCopy[cd.obj]) || bad[identObj(info, cd.sel.X)] {
 						continue
+					}
+					if isAddrCopy[cd.obj] {
+						// every use of the pointer is the operand of a method selection
+						onlySelected := true
+						astutil.Apply(fd.Body, func(cur *astutil.Cursor) bool {
+							if id, ok := cur.Node().(*ast.Ident); ok && info.Uses[id] == cd.obj && !defining[id] {
+								if ps, isSel := cur.Parent().(*ast.SelectorExpr); !isSel || ps.X != ast.Expr(id) {
+									onlySelected = false
+								}
+							}
+							return onlySelected
+						}, nil)
+						if !onlySelected {
+							continue
+						}
 					}
 					repl[cd.obj] = cd.sel
 				}
 				if len(repl) == 0 {
 					continue
 				}
+				defStmts := map[types.Object][]*ast.AssignStmt{}
+				kept := map[types.Object]bool{}
 				astutil.Apply(fd.Body, func(cur *astutil.Cursor) bool {
 					id, ok := cur.Node().(*ast.Ident)
 					if !ok {
@@ -605,6 +749,19 @@ func inlineFieldCopies(c *Ctx) int {
 					}
 					se := repl[info.Uses[id]]
 					if se == nil {
+						return true
+					}
+					if defining[id] {
+						// the assignment that stands for the declaration: it becomes the definition
+						if as, isAs := cur.Parent().(*ast.AssignStmt); isAs && len(as.Lhs) == 1 && as.Lhs[0] == ast.Expr(id) {
+							o := info.Uses[id]
+							defStmts[o] = append(defStmts[o], as)
+							if !sameField[o] {
+								as.Tok = token.DEFINE
+								info.Defs[id] = o
+								delete(info.Uses, id)
+							}
+						}
 						return true
 					}
 					// not the selector part of x.y, not a key of a composite literal
@@ -623,7 +780,389 @@ func inlineFieldCopies(c *Ctx) int {
 					in := &inliner{info: info, pos: id.Pos(), end: id.End() - 1, ok: true}
 					cp := in.expr(se)
 					if !in.ok {
+						kept[info.Uses[id]] = true
 						return true
+					}
+					cur.Replace(cp)
+					total++
+					return false
+				}, nil)
+				// an assignment whose local is mentioned nowhere any more says nothing
+				dead := map[ast.Stmt]bool{}
+				for o, sts := range defStmts {
+					if kept[o] {
+						continue
+					}
+					left := 0
+					ast.Inspect(fd.Body, func(x ast.Node) bool {
+						if id, ok := x.(*ast.Ident); ok && info.Uses[id] == o {
+							left++
+						}
+						return true
+					})
+					n := 0
+					if sameField[o] {
+						n = len(sts) // their left sides are still uses
+					}
+					if left == n {
+						for _, st := range sts {
+							dead[st] = true
+						}
+					}
+				}
+				if len(dead) > 0 {
+					ast.Inspect(fd.Body, func(x ast.Node) bool {
+						fix := func(list []ast.Stmt) []ast.Stmt {
+							var out []ast.Stmt
+							for _, st := range list {
+								if !dead[st] {
+									out = append(out, st)
+								}
+							}
+							return out
+						}
+						switch b := x.(type) {
+						case *ast.BlockStmt:
+							b.List = fix(b.List)
+						case *ast.CaseClause:
+							b.Body = fix(b.Body)
+						case *ast.CommClause:
+							b.Body = fix(b.Body)
+						}
+						return true
+					})
+				}
+			}
+		}
+	}
+	return total
+}
+
+// usesFollowAssignments: the local is declared once (`var x T`, with or without a value) and every
+// read of it lies behind an assignment `x = E` that is a member of the same statement list or of
+// an enclosing one: the declared value is never read.
+func usesFollowAssignments(info *types.Info, fd *ast.FuncDecl, o types.Object) bool {
+	ok := true
+	var visitList func(list []ast.Stmt, assigned bool)
+	var visitNode func(n ast.Node, assigned bool)
+	visitNode = func(n ast.Node, assigned bool) {
+		ast.Inspect(n, func(y ast.Node) bool {
+			if !ok {
+				return false
+			}
+			switch b := y.(type) {
+			case *ast.FuncLit:
+				if mentionsObj(info, b, o) {
+					ok = false
+				}
+				return false
+			case *ast.BlockStmt:
+				visitList(b.List, assigned)
+				return false
+			case *ast.CaseClause:
+				for _, e := range b.List {
+					visitNode(e, assigned)
+				}
+				visitList(b.Body, assigned)
+				return false
+			case *ast.CommClause:
+				if b.Comm != nil {
+					visitNode(b.Comm, assigned)
+				}
+				visitList(b.Body, assigned)
+				return false
+			case *ast.ValueSpec:
+				return false
+			case *ast.Ident:
+				if info.Uses[b] == o && !assigned {
+					ok = false
+				}
+			}
+			return true
+		})
+	}
+	visitList = func(list []ast.Stmt, assigned bool) {
+		for _, st := range list {
+			if as, isAs := st.(*ast.AssignStmt); isAs && as.Tok == token.ASSIGN && len(as.Lhs) == 1 && identObj(info, as.Lhs[0]) == o {
+				for _, r := range as.Rhs {
+					visitNode(r, assigned)
+				}
+				assigned = true
+				continue
+			}
+			visitNode(st, assigned)
+		}
+	}
+	visitList(fd.Body.List, false)
+	return ok
+}
+
+// dropZeroDeclarations: `var x T = <zero>` (or `var x T`) at the head of a function, where the next
+// statement of the same list that mentions x assigns to it (`x = E`, `x, ok = f()`) without reading
+// it: the declaration carries no information (the style that declares every local at the top of
+// the function).  It is taken out of the list, so that the assignment is what defines x for the
+// rules that look for "the" definition of a local.
+func dropZeroDeclarations(c *Ctx) int {
+	total := 0
+	for _, p := range c.All {
+		info := p.TypesInfo
+		isZero := func(e ast.Expr) bool {
+			e = ast.Unparen(e)
+			if tv, ok := info.Types[e]; ok {
+				if tv.IsNil() {
+					return true
+				}
+				if tv.Value != nil {
+					switch tv.Value.ExactString() {
+					case "0", "false", `""`:
+						return true
+					}
+					return false
+				}
+			}
+			switch x := e.(type) {
+			case *ast.StarExpr: // *new(T)
+				if call, ok := ast.Unparen(x.X).(*ast.CallExpr); ok && isBuiltinCall(info, call, "new") {
+					return true
+				}
+			case *ast.CompositeLit:
+				return len(x.Elts) == 0
+			case *ast.CallExpr: // T(0), T(nil)
+				if tv, ok := info.Types[x.Fun]; ok && tv.IsType() && len(x.Args) == 1 {
+					if av, ok := info.Types[x.Args[0]]; ok && (av.IsNil() || (av.Value != nil && (av.Value.ExactString() == "0" || av.Value.ExactString() == `""` || av.Value.ExactString() == "false"))) {
+						return true
+					}
+				}
+			}
+			return false
+		}
+		fix := func(list []ast.Stmt) []ast.Stmt {
+			drop := map[int]bool{}
+			for i, s := range list {
+				ds, ok := s.(*ast.DeclStmt)
+				if !ok {
+					continue
+				}
+				gd, ok := ds.Decl.(*ast.GenDecl)
+				if !ok || gd.Tok != token.VAR || len(gd.Specs) != 1 {
+					continue
+				}
+				vs := gd.Specs[0].(*ast.ValueSpec)
+				if len(vs.Names) != 1 || len(vs.Values) > 1 || (len(vs.Values) == 1 && !isZero(vs.Values[0])) {
+					continue
+				}
+				x := info.Defs[vs.Names[0]]
+				if x == nil {
+					continue
+				}
+				for j := i + 1; j < len(list); j++ {
+					if !mentionsObj(info, list[j], x) {
+						continue
+					}
+					as, ok := list[j].(*ast.AssignStmt)
+					if !ok || as.Tok != token.ASSIGN {
+						if soleNestedDefinition(info, list[i+1:], x) {
+							drop[i] = true
+						}
+						break
+					}
+					onLeft, elsewhere := false, false
+					for _, l := range as.Lhs {
+						if identObj(info, l) == x {
+							onLeft = true
+						} else if mentionsObj(info, l, x) {
+							elsewhere = true
+						}
+					}
+					for _, r := range as.Rhs {
+						if mentionsObj(info, r, x) {
+							elsewhere = true
+						}
+					}
+					if onLeft && !elsewhere {
+						drop[i] = true
+					}
+					break
+				}
+			}
+			if len(drop) == 0 {
+				return list
+			}
+			var out []ast.Stmt
+			for i, s := range list {
+				if !drop[i] {
+					out = append(out, s)
+				}
+			}
+			total += len(drop)
+			return out
+		}
+		for _, f := range p.Syntax {
+			ast.Inspect(f, func(x ast.Node) bool {
+				switch b := x.(type) {
+				case *ast.BlockStmt:
+					b.List = fix(b.List)
+				case *ast.CaseClause:
+					b.Body = fix(b.Body)
+				case *ast.CommClause:
+					b.Body = fix(b.Body)
+				}
+				return true
+			})
+		}
+	}
+	return total
+}
+
+// inlineLocalCopies: a local x whose only definition is `x = y` (a statement of a list), where y is
+// a local or a parameter of the same type that is never written after its own definition: x is
+// another name for y (the result variable of the single-exit style: `result = output; return
+// result`).  The uses of x become y and the assignment is taken out.
+func inlineLocalCopies(c *Ctx) int {
+	total := 0
+	for _, p := range c.All {
+		info := p.TypesInfo
+		for _, f := range p.Syntax {
+			for _, d := range f.Decls {
+				fd, ok := d.(*ast.FuncDecl)
+				if !ok || fd.Body == nil {
+					continue
+				}
+				writes := map[types.Object]int{}
+				addrOrOdd := map[types.Object]bool{}
+				ast.Inspect(fd.Body, func(x ast.Node) bool {
+					switch s := x.(type) {
+					case *ast.AssignStmt:
+						for _, l := range s.Lhs {
+							if o := identObj(info, l); o != nil {
+								writes[o]++
+							}
+						}
+					case *ast.ValueSpec:
+						for _, nm := range s.Names {
+							if o := info.Defs[nm]; o != nil {
+								writes[o]++
+							}
+						}
+					case *ast.IncDecStmt:
+						if o := identObj(info, s.X); o != nil {
+							addrOrOdd[o] = true
+						}
+					case *ast.UnaryExpr:
+						if s.Op == token.AND {
+							if o := identObj(info, s.X); o != nil {
+								addrOrOdd[o] = true
+							}
+						}
+					case *ast.RangeStmt:
+						for _, e := range []ast.Expr{s.Key, s.Value} {
+							if e != nil {
+								if o := identObj(info, e); o != nil {
+									writes[o] += 2
+								}
+							}
+						}
+					case *ast.TypeSwitchStmt:
+						return true
+					}
+					return true
+				})
+				namedResult := func(o types.Object) bool {
+					return fd.Type.Results != nil && o.Pos() >= fd.Type.Results.Pos() && o.Pos() < fd.Type.Results.End()
+				}
+				isParam := map[types.Object]bool{}
+				for _, po := range paramObjs(info, fd) {
+					isParam[po] = true
+				}
+				repl := map[types.Object]*ast.Ident{}
+				drop := map[ast.Stmt]bool{}
+				var scan func(list []ast.Stmt)
+				scan = func(list []ast.Stmt) {
+					for _, st := range list {
+						as, ok := st.(*ast.AssignStmt)
+						if !ok || len(as.Lhs) != 1 || len(as.Rhs) != 1 || (as.Tok != token.ASSIGN && as.Tok != token.DEFINE) {
+							continue
+						}
+						xid, ok1 := as.Lhs[0].(*ast.Ident)
+						yid, ok2 := ast.Unparen(as.Rhs[0]).(*ast.Ident)
+						if !ok1 || !ok2 {
+							continue
+						}
+						xo, yo := identObj(info, xid), info.Uses[yid]
+						xv, okx := xo.(*types.Var)
+						yv, oky := yo.(*types.Var)
+						if !okx || !oky || xv == yv || xv.IsField() || yv.IsField() || xv.Pkg() == nil || yv.Pkg() == nil {
+							continue
+						}
+						if xv.Parent() == xv.Pkg().Scope() || yv.Parent() == yv.Pkg().Scope() || isParam[xo] || namedResult(xo) || namedResult(yo) {
+							continue
+						}
+						if !types.Identical(xv.Type(), yv.Type()) {
+							continue
+						}
+						if writes[xo] != 1 || addrOrOdd[xo] || addrOrOdd[yo] {
+							continue
+						}
+						if isParam[yo] && writes[yo] != 0 || !isParam[yo] && writes[yo] != 1 {
+							continue
+						}
+						if _, chained := repl[yo]; chained {
+							continue
+						}
+						repl[xo] = yid
+						drop[st] = true
+					}
+				}
+				ast.Inspect(fd.Body, func(x ast.Node) bool {
+					switch b := x.(type) {
+					case *ast.BlockStmt:
+						scan(b.List)
+					case *ast.CaseClause:
+						scan(b.Body)
+					case *ast.CommClause:
+						scan(b.Body)
+					}
+					return true
+				})
+				if len(repl) == 0 {
+					continue
+				}
+				ast.Inspect(fd.Body, func(x ast.Node) bool {
+					fix := func(list []ast.Stmt) []ast.Stmt {
+						var out []ast.Stmt
+						for _, st := range list {
+							if !drop[st] {
+								out = append(out, st)
+							}
+						}
+						return out
+					}
+					switch b := x.(type) {
+					case *ast.BlockStmt:
+						b.List = fix(b.List)
+					case *ast.CaseClause:
+						b.Body = fix(b.Body)
+					case *ast.CommClause:
+						b.Body = fix(b.Body)
+					}
+					return true
+				})
+				astutil.Apply(fd.Body, func(cur *astutil.Cursor) bool {
+					id, ok := cur.Node().(*ast.Ident)
+					if !ok {
+						return true
+					}
+					y := repl[info.Uses[id]]
+					if y == nil {
+						return true
+					}
+					if par, isSel := cur.Parent().(*ast.SelectorExpr); isSel && par.Sel == id {
+						return true
+					}
+					cp := &ast.Ident{NamePos: id.Pos(), Name: y.Name}
+					info.Uses[cp] = info.Uses[y]
+					if tv, ok := info.Types[y]; ok {
+						info.Types[cp] = tv
 					}
 					cur.Replace(cp)
 					total++
@@ -633,4 +1172,421 @@ func inlineFieldCopies(c *Ctx) int {
 		}
 	}
 	return total
+}
+
+// threeStepExchanges: `t = a; a = b; b = t` as three consecutive statements of a list, where t is a
+// local that is mentioned nowhere else and a and b are variables or cells with call-free indexes:
+// the statements become `a, b = b, a`.
+func threeStepExchanges(c *Ctx) int {
+	total := 0
+	for _, p := range c.All {
+		info := p.TypesInfo
+		for _, f := range p.Syntax {
+			for _, d := range f.Decls {
+				fd, ok := d.(*ast.FuncDecl)
+				if !ok || fd.Body == nil {
+					continue
+				}
+				mentionsOf := func(o types.Object) int {
+					n := 0
+					ast.Inspect(fd.Body, func(x ast.Node) bool {
+						if vs, ok := x.(*ast.ValueSpec); ok {
+							for _, v := range vs.Values {
+								if mentionsObj(info, v, o) {
+									n += 10
+								}
+							}
+							return false
+						}
+						if id, ok := x.(*ast.Ident); ok && (info.Uses[id] == o || info.Defs[id] == o) {
+							n++
+						}
+						return true
+					})
+					return n
+				}
+				place := func(e ast.Expr) bool {
+					e = ast.Unparen(e)
+					switch x := e.(type) {
+					case *ast.Ident:
+						v, ok := info.Uses[x].(*types.Var)
+						return ok && !v.IsField() && v.Pkg() != nil && v.Parent() != v.Pkg().Scope()
+					case *ast.IndexExpr:
+						if _, ok := ast.Unparen(x.X).(*ast.Ident); !ok {
+							return false
+						}
+						if tv, ok := info.Types[x.X]; !ok || tv.Type == nil {
+							return false
+						} else if _, isSlice := tv.Type.Underlying().(*types.Slice); !isSlice {
+							return false
+						}
+						pure := true
+						ast.Inspect(x.Index, func(y ast.Node) bool {
+							switch z := y.(type) {
+							case *ast.CallExpr:
+								if !isBuiltinCall(info, z, "len") {
+									if tv, ok := info.Types[z.Fun]; !ok || !tv.IsType() {
+										pure = false
+									}
+								}
+							case *ast.UnaryExpr:
+								if z.Op == token.ARROW {
+									pure = false
+								}
+							}
+							return pure
+						})
+						return pure
+					}
+					return false
+				}
+				single := func(st ast.Stmt) (ast.Expr, ast.Expr, token.Token, bool) {
+					as, ok := st.(*ast.AssignStmt)
+					if !ok || len(as.Lhs) != 1 || len(as.Rhs) != 1 || (as.Tok != token.ASSIGN && as.Tok != token.DEFINE) {
+						return nil, nil, 0, false
+					}
+					return as.Lhs[0], as.Rhs[0], as.Tok, true
+				}
+				fix := func(list []ast.Stmt) []ast.Stmt {
+					for i := 0; i+2 < len(list); i++ {
+						t, a1, _, ok1 := single(list[i])
+						a2, b2, tok2, ok2 := single(list[i+1])
+						b3, t3, tok3, ok3 := single(list[i+2])
+						if !ok1 || !ok2 || !ok3 || tok2 != token.ASSIGN || tok3 != token.ASSIGN {
+							continue
+						}
+						to := identObj(info, t)
+						if to == nil || identObj(info, t3) != to {
+							continue
+						}
+						if tv, isVar := to.(*types.Var); !isVar || tv.IsField() || tv.Pkg() == nil || tv.Parent() == tv.Pkg().Scope() {
+							continue
+						}
+						if !place(a1) || !place(b2) || exprStr(a1) != exprStr(a2) || exprStr(b2) != exprStr(b3) || exprStr(a1) == exprStr(b2) {
+							continue
+						}
+						if mentionsObj(info, a1, to) || mentionsObj(info, b2, to) || mentionsOf(to) != 2 {
+							continue
+						}
+						as2 := list[i+1].(*ast.AssignStmt)
+						as3 := list[i+2].(*ast.AssignStmt)
+						sw := &ast.AssignStmt{Lhs: []ast.Expr{as2.Lhs[0], as3.Lhs[0]}, TokPos: as2.TokPos, Tok: token.ASSIGN, Rhs: []ast.Expr{as2.Rhs[0], list[i].(*ast.AssignStmt).Rhs[0]}}
+						out := append([]ast.Stmt{}, list[:i]...)
+						out = append(out, sw)
+						out = append(out, list[i+3:]...)
+						list = out
+						total++
+					}
+					return list
+				}
+				ast.Inspect(fd.Body, func(x ast.Node) bool {
+					switch b := x.(type) {
+					case *ast.BlockStmt:
+						b.List = fix(b.List)
+					case *ast.CaseClause:
+						b.Body = fix(b.Body)
+					case *ast.CommClause:
+						b.Body = fix(b.Body)
+					}
+					return true
+				})
+			}
+		}
+	}
+	return total
+}
+
+// rangeDefines: `var k K; var v V; ... for k, v = range X {…}` where k and v are mentioned nowhere
+// outside the loop: the loop defines them (`for k, v := range X`), the declarations are dropped.
+func rangeDefines(c *Ctx) int {
+	total := 0
+	for _, p := range c.All {
+		info := p.TypesInfo
+		for _, f := range p.Syntax {
+			for _, d := range f.Decls {
+				fd, ok := d.(*ast.FuncDecl)
+				if !ok || fd.Body == nil {
+					continue
+				}
+				var loops []ast.Stmt
+				ast.Inspect(fd.Body, func(x ast.Node) bool {
+					if rs, ok := x.(*ast.RangeStmt); ok && rs.Tok == token.ASSIGN {
+						loops = append(loops, rs)
+					}
+					// for i = a; …; … {…}: the same for the variable of a three-clause loop
+					if fs, ok := x.(*ast.ForStmt); ok && fs.Init != nil {
+						if as, ok := fs.Init.(*ast.AssignStmt); ok && as.Tok == token.ASSIGN && len(as.Lhs) == 1 && len(as.Rhs) == 1 {
+							if o := identObj(info, as.Lhs[0]); o != nil && !mentionsObj(info, as.Rhs[0], o) {
+								loops = append(loops, fs)
+							}
+						}
+					}
+					return true
+				})
+				for _, rs := range loops {
+					var ids []*ast.Ident
+					good := true
+					var targets []ast.Expr
+					switch l := rs.(type) {
+					case *ast.RangeStmt:
+						targets = []ast.Expr{l.Key, l.Value}
+					case *ast.ForStmt:
+						targets = []ast.Expr{l.Init.(*ast.AssignStmt).Lhs[0]}
+					}
+					for _, e := range targets {
+						if e == nil {
+							continue
+						}
+						id, ok := e.(*ast.Ident)
+						if !ok {
+							good = false
+							break
+						}
+						if id.Name == "_" {
+							continue
+						}
+						v, isVar := info.Uses[id].(*types.Var)
+						if !isVar || v.IsField() || v.Pkg() == nil || v.Parent() == v.Pkg().Scope() {
+							good = false
+							break
+						}
+						ids = append(ids, id)
+					}
+					if !good || len(ids) == 0 {
+						continue
+					}
+					// every mention outside the loop is the name of a one-name declaration without
+					// a value that could have an effect
+					decls := map[types.Object]*ast.DeclStmt{}
+					for _, id := range ids {
+						o := info.Uses[id]
+						ast.Inspect(fd.Body, func(x ast.Node) bool {
+							if x == ast.Node(rs) {
+								return false
+							}
+							switch y := x.(type) {
+							case *ast.DeclStmt:
+								if gd, ok := y.Decl.(*ast.GenDecl); ok && gd.Tok == token.VAR && len(gd.Specs) == 1 {
+									vs := gd.Specs[0].(*ast.ValueSpec)
+									if len(vs.Names) == 1 && info.Defs[vs.Names[0]] == o {
+										callFree := true
+										for _, val := range vs.Values {
+											ast.Inspect(val, func(z ast.Node) bool {
+												if ce, ok := z.(*ast.CallExpr); ok && !isBuiltinCall(info, ce, "new") {
+													if tv, ok := info.Types[ce.Fun]; !ok || !tv.IsType() {
+														callFree = false
+													}
+												}
+												return callFree
+											})
+											if mentionsObj(info, val, o) {
+												callFree = false
+											}
+										}
+										if callFree {
+											decls[o] = y
+											return false
+										}
+									}
+								}
+							case *ast.Ident:
+								if info.Uses[y] == o || info.Defs[y] == o {
+									good = false
+								}
+							}
+							return good
+						})
+						if decls[o] == nil {
+							good = false
+						}
+					}
+					if !good {
+						continue
+					}
+					drop := map[ast.Stmt]bool{}
+					for _, ds := range decls {
+						drop[ds] = true
+					}
+					removed := 0
+					ast.Inspect(fd.Body, func(x ast.Node) bool {
+						fix := func(list []ast.Stmt) []ast.Stmt {
+							var out []ast.Stmt
+							for _, st := range list {
+								if drop[st] {
+									removed++
+									continue
+								}
+								out = append(out, st)
+							}
+							return out
+						}
+						switch b := x.(type) {
+						case *ast.BlockStmt:
+							b.List = fix(b.List)
+						case *ast.CaseClause:
+							b.Body = fix(b.Body)
+						case *ast.CommClause:
+							b.Body = fix(b.Body)
+						}
+						return true
+					})
+					if removed != len(decls) {
+						continue
+					}
+					switch l := rs.(type) {
+					case *ast.RangeStmt:
+						l.Tok = token.DEFINE
+					case *ast.ForStmt:
+						l.Init.(*ast.AssignStmt).Tok = token.DEFINE
+					}
+					for _, id := range ids {
+						info.Defs[id] = info.Uses[id]
+						delete(info.Uses, id)
+					}
+					total++
+				}
+			}
+		}
+	}
+	return total
+}
+
+// soleNestedDefinition: within rest (the scope of x after its zero declaration) x is written by
+// exactly one statement `x = E` (or `x, ok = f()`), which is a member of some statement list, and
+// every other mention of x lies in the later members of that same list: the assignment is the
+// definition that every read sees, wherever the list is nested.  No function literal mentions x,
+// its address is not taken.
+func soleNestedDefinition(info *types.Info, rest []ast.Stmt, x types.Object) bool {
+	var defList []ast.Stmt
+	defAt := -1
+	writes, bad := 0, false
+	var visitList func(list []ast.Stmt)
+	visit := func(n ast.Node) {
+		ast.Inspect(n, func(y ast.Node) bool {
+			switch b := y.(type) {
+			case *ast.FuncLit:
+				if mentionsObj(info, b, x) {
+					bad = true
+				}
+				return false
+			case *ast.BlockStmt:
+				visitList(b.List)
+				return false
+			case *ast.CaseClause:
+				for _, e := range b.List {
+					if mentionsObj(info, e, x) {
+						// read in a case expression: counted by the position test below
+						_ = e
+					}
+				}
+				visitList(b.Body)
+				return false
+			case *ast.CommClause:
+				if b.Comm != nil && mentionsObj(info, b.Comm, x) {
+					bad = true
+				}
+				visitList(b.Body)
+				return false
+			case *ast.IncDecStmt:
+				if identObj(info, b.X) == x {
+					bad = true
+				}
+			case *ast.UnaryExpr:
+				if b.Op == token.AND && identObj(info, b.X) == x {
+					bad = true
+				}
+			case *ast.RangeStmt:
+				if b.Tok == token.ASSIGN && (b.Key != nil && identObj(info, b.Key) == x || b.Value != nil && identObj(info, b.Value) == x) {
+					bad = true
+				}
+			case *ast.AssignStmt:
+				for _, l := range b.Lhs {
+					if identObj(info, l) == x {
+						bad = true // an assignment that is not a member of a list (init or post of a loop)
+					}
+				}
+			}
+			return !bad
+		})
+	}
+	visitList = func(list []ast.Stmt) {
+		for k, st := range list {
+			if as, ok := st.(*ast.AssignStmt); ok && as.Tok == token.ASSIGN {
+				onLeft, elsewhere := false, false
+				for _, l := range as.Lhs {
+					if identObj(info, l) == x {
+						onLeft = true
+					} else if mentionsObj(info, l, x) {
+						elsewhere = true
+					}
+				}
+				for _, r := range as.Rhs {
+					if mentionsObj(info, r, x) {
+						elsewhere = true
+					}
+				}
+				if onLeft {
+					writes++
+					if elsewhere {
+						bad = true
+					}
+					defList, defAt = list, k
+					continue
+				}
+			}
+			visit(st)
+		}
+	}
+	visitList(rest)
+	if bad || writes != 1 || defAt < 0 {
+		return false
+	}
+	// every other mention lies in the later members of the list of the definition
+	later := map[*ast.Ident]bool{}
+	for _, st := range defList[defAt+1:] {
+		ast.Inspect(st, func(y ast.Node) bool {
+			if id, ok := y.(*ast.Ident); ok && info.Uses[id] == x {
+				later[id] = true
+			}
+			return true
+		})
+	}
+	ok := true
+	for _, st := range rest {
+		ast.Inspect(st, func(y ast.Node) bool {
+			if y == ast.Node(defList[defAt]) {
+				return false
+			}
+			if id, isId := y.(*ast.Ident); isId && info.Uses[id] == x && !later[id] {
+				ok = false
+			}
+			return ok
+		})
+	}
+	return ok
+}
+
+// declaredWithValue: the local still has a declaration in the function (one that was not dropped).
+func declaredWithValue(info *types.Info, fd *ast.FuncDecl, o types.Object) bool {
+	found := false
+	ast.Inspect(fd.Body, func(x ast.Node) bool {
+		switch s := x.(type) {
+		case *ast.ValueSpec:
+			for _, nm := range s.Names {
+				if info.Defs[nm] == o {
+					found = true
+				}
+			}
+		case *ast.AssignStmt:
+			if s.Tok == token.DEFINE {
+				for _, l := range s.Lhs {
+					if id, ok := l.(*ast.Ident); ok && info.Defs[id] == o {
+						found = true
+					}
+				}
+			}
+		}
+		return true
+	})
+	return found
 }
